@@ -9,16 +9,21 @@
  *       (or legitimately accepted TLS 1.3 early data);
  *   (b) every delivered byte continues the honest peer's tagged stream for this connection and
  *       direction (so it came from a record that verified under this handshake's keys);
- *   (c) matrixSslEncodeToOutdata before completion does not succeed.
- * Positive control: on the un-attacked run honest data must arrive as APP_DATA after completion. */
+ *   (c) matrixSslEncodeToOutdata before completion does not succeed;
+ *   (d) after any injection a keyless attacker can make (plaintext / random / foreign / reflected records, forged plaintext HANDSHAKE
+ *       records of every message type) an endpoint that was not complete before is not complete afterwards
+ *       (matrixSslHandshakeIsComplete, MATRIXSSL_HANDSHAKE_COMPLETE from any call) and still refuses to encode application data.
+ * Positive control: on the un-attacked run honest data must arrive as APP_DATA after completion.
+ * Second part (psk_keyless): peers that hold none of the configured RFC 4279 pre-shared keys (unknown / near-miss identities,
+ * empty / all-zero / wrong keys) against PSK servers and clients; the victim must never complete, deliver or encode. */
 #include "mx_surgeon.h"
 
 #include "mx_scn.h"
 typedef mx_scn scn_t;
 
 /* ---- injections ---- */
-enum { INJ_NONE = 0, INJ_PLAIN, INJ_RANDOM, INJ_FOREIGN, INJ_REFLECT, INJ_HSKEY, INJ_HSKEY_OUTER22, INJ_ENCODE, INJ_AUTH_APPDATA, INJ_N };
-static const char *injname[] = { "none", "plaintext-record", "random-body-record", "foreign-connection-record", "reflected-record", "hs-key-sealed-appdata", "hs-key-sealed-appdata-outer22", "encode-before-complete", "peer-sealed-appdata-before-finished" };
+enum { INJ_NONE = 0, INJ_PLAIN, INJ_RANDOM, INJ_FOREIGN, INJ_REFLECT, INJ_HSKEY, INJ_HSKEY_OUTER22, INJ_ENCODE, INJ_AUTH_APPDATA, INJ_HSPLAIN, INJ_N };
+static const char *injname[] = { "none", "plaintext-record", "random-body-record", "foreign-connection-record", "reflected-record", "hs-key-sealed-appdata", "hs-key-sealed-appdata-outer22", "encode-before-complete", "peer-sealed-appdata-before-finished", "plaintext-handshake-record" };
 typedef struct { int kind; int vmaj, vmin; int len; int epoch; } inj_t;
 
 static unsigned char **foreign; static int *foreignlen;   /* app-data records captured from another connection of the same scenario, per direction */
@@ -74,6 +79,97 @@ static void honest_send(mx_conn *k, mx_ep *e, int len, int serial)
     if (rc > 0) { memcpy(M.sent[dir] + M.sentlen[dir], p, len); M.sentlen[dir] += len; }
 }
 
+/* ---- forged plaintext handshake messages: everything a peer WITHOUT any key can put on the wire ----
+ * One well-formed (or at least plausibly framed) body per handshake message type; values an attacker reads off the wire (session id,
+ * PSK identity, DTLS message / record sequence numbers) are taken from the connection, the rest is seeded noise. */
+enum { HS_CCS_FINISHED = 0x100 };   /* pseudo type: plaintext ChangeCipherSpec record followed by a plaintext Finished */
+static const struct { int type; const char *name; int v12, v13, dtlsonly; } hsforge[] = {
+    { 0, "hello_request", 1, 1, 0 }, { 1, "client_hello", 1, 1, 0 }, { 2, "server_hello", 1, 1, 0 }, { 3, "hello_verify_request", 1, 0, 1 },
+    { 4, "new_session_ticket", 1, 1, 0 }, { 5, "end_of_early_data", 0, 1, 0 }, { 8, "encrypted_extensions", 0, 1, 0 },
+    { 11, "certificate_empty", 1, 1, 0 }, { 12, "server_key_exchange", 1, 0, 0 }, { 13, "certificate_request", 1, 1, 0 },
+    { 14, "server_hello_done", 1, 0, 0 }, { 15, "certificate_verify", 1, 1, 0 }, { 16, "client_key_exchange", 1, 0, 0 },
+    { 20, "finished", 1, 1, 0 }, { 24, "key_update", 0, 1, 0 }, { HS_CCS_FINISHED, "ccs+finished", 1, 1, 0 },
+};
+#define NHSFORGE ((int) (sizeof hsforge / sizeof hsforge[0]))
+static const char *hsforge_name(int type) { for (int i = 0; i < NHSFORGE; i++) if (hsforge[i].type == type) return hsforge[i].name; return "?"; }
+static const unsigned char p256_G[65] = { 0x04,
+    0x6b, 0x17, 0xd1, 0xf2, 0xe1, 0x2c, 0x42, 0x47, 0xf8, 0xbc, 0xe6, 0xe5, 0x63, 0xa4, 0x40, 0xf2, 0x77, 0x03, 0x7d, 0x81, 0x2d, 0xeb, 0x33, 0xa0, 0xf4, 0xa1, 0x39, 0x45, 0xd8, 0x98, 0xc2, 0x96,
+    0x4f, 0xe3, 0x42, 0xe2, 0xfe, 0x1a, 0x7f, 0x9b, 0x8e, 0xe7, 0xeb, 0x4a, 0x7c, 0x0f, 0x9e, 0x16, 0x2b, 0xce, 0x33, 0x57, 0x6b, 0x31, 0x5e, 0xce, 0xcb, 0xb6, 0x40, 0x68, 0x37, 0xbf, 0x51, 0xf5 };
+#define PUT(p, n) do { memcpy(b + l, (p), (n)); l += (n); } while (0)
+#define PUT1(v) do { b[l++] = (unsigned char) (v); } while (0)
+#define PUT2(v) do { b[l++] = (unsigned char) ((v) >> 8); b[l++] = (unsigned char) (v); } while (0)
+#define PUTRND(n) do { vf_fill(r, b + l, (n)); l += (n); } while (0)
+static int forge_hs_body(int type, mx_conn *k, unsigned char *b, vf_rng *r)
+{
+    int ver = M.scn->cfg.ver, v13 = ver == MX_TLS13, dtls = MX_IS_DTLS(ver), l = 0; uint16_t suite = M.scn->cfg.suite;
+    const mx_suite_t *su = mx_suite_by_id(suite); int psk = su && su->auth == MX_AUTH_PSK, ecdhe = su && su->name[0] == 'E';
+    int wmaj = dtls ? 254 : 3, wmin = ver == MX_TLS11 ? 2 : ver == MX_DTLS10 ? 255 : ver == MX_DTLS12 ? 253 : 3;   /* TLS 1.3: legacy_version 0303 */
+    unsigned char sid[32]; int sidlen = 0;
+    { mx_rec rc0; int h = dtls ? 12 : 4;        /* session id of the honest ClientHello, if already on the wire */
+      if (mx_rec_at(k->wire[0], k->wirelen[0], 0, dtls, &rc0) && rc0.type == 22 && rc0.len >= h + 35) {
+          const unsigned char *ch = k->wire[0] + rc0.hdr + h; int sl = ch[34]; if (sl <= 32 && rc0.len >= h + 35 + sl) { memcpy(sid, ch + 35, sl); sidlen = sl; } } }
+    switch (type) {
+    case 0: case 5: case 14: break;
+    case 1:
+        PUT1(wmaj); PUT1(wmin); PUTRND(32);
+        if (v13) { PUT1(32); PUTRND(32); } else PUT1(0);
+        if (dtls) PUT1(0);
+        PUT2(4); PUT2(suite); PUT2(0x00ff); PUT1(1); PUT1(0);
+        if (v13) {
+            PUT2(7 + 8 + 10 + 75);
+            PUT2(0x002b); PUT2(3); PUT1(2); PUT2(0x0304);
+            PUT2(0x000a); PUT2(4); PUT2(2); PUT2(0x0017);
+            PUT2(0x000d); PUT2(6); PUT2(4); PUT2(0x0804); PUT2(0x0403);
+            PUT2(0x0033); PUT2(71); PUT2(69); PUT2(0x0017); PUT2(65); PUT(p256_G, 65);
+        }
+        break;
+    case 2:
+        PUT1(wmaj); PUT1(wmin); PUTRND(32);
+        if (v13) { PUT1(sidlen); PUT(sid, sidlen); } else { PUT1(32); PUTRND(32); }
+        PUT2(suite); PUT1(0);
+        if (v13) { PUT2(6 + 73); PUT2(0x002b); PUT2(2); PUT2(0x0304); PUT2(0x0033); PUT2(69); PUT2(0x0017); PUT2(65); PUT(p256_G, 65); }
+        else { PUT2(5); PUT2(0xff01); PUT2(1); PUT1(0); }
+        break;
+    case 3: PUT1(254); PUT1(255); PUT1(16); PUTRND(16); break;
+    case 4:
+        PUT2(0); PUT2(3600);
+        if (v13) { PUTRND(4); PUT1(0); PUT2(32); PUTRND(32); PUT2(0); } else { PUT2(32); PUTRND(32); }
+        break;
+    case 8: PUT2(0); break;
+    case 11: if (v13) PUT1(0); PUT1(0); PUT2(0); break;
+    case 12:
+        if (psk) PUT2(0);
+        else if (ecdhe) { PUT1(3); PUT2(0x0017); PUT1(65); PUT(p256_G, 65); if (ver == MX_TLS12 || ver == MX_DTLS12) PUT2(0x0401); PUT2(64); PUTRND(64); }
+        else PUTRND(8);
+        break;
+    case 13:
+        if (v13) { PUT1(0); PUT2(8); PUT2(0x000d); PUT2(4); PUT2(2); PUT2(0x0804); }
+        else { PUT1(2); PUT1(1); PUT1(64); if (ver == MX_TLS12 || ver == MX_DTLS12) { PUT2(4); PUT2(0x0401); PUT2(0x0403); } PUT2(0); }
+        break;
+    case 15: if (v13) PUT2(0x0804); else if (ver == MX_TLS12 || ver == MX_DTLS12) PUT2(0x0401); PUT2(64); PUTRND(64); break;
+    case 16:
+        if (psk) { PUT2(16); PUT(mx_psk_id, 16); }
+        else if (ecdhe) { PUT1(65); PUT(p256_G, 65); }
+        else { PUT2(256); PUTRND(256); }
+        break;
+    case 20: PUTRND(v13 ? (suite == 0x1302 ? 48 : 32) : 12); break;
+    case 24: PUT1(0); break;
+    }
+    return l;
+}
+/* DTLS: a record sequence number the target's replay window has not seen (the attacker reads the numbers in use off the wire) */
+static unsigned long long next_rsn(mx_ep *tgt) { unsigned long long v = 0; for (int i = 0; i < 6; i++) v = (v << 8) | tgt->ssl->lastRsn[i]; return v + 1; }
+/* one plaintext record (epoch 0 for DTLS) carrying one handshake message */
+static int forge_hs_record(int type, mx_conn *k, mx_ep *tgt, int vmaj, int vmin, int seqadd, vf_rng *r, unsigned char *out)
+{
+    unsigned char b[1024], m[1100]; int dtls = k->dtls, bl = forge_hs_body(type, k, b, r), l = 0;
+    m[l++] = type; m[l++] = 0; m[l++] = bl >> 8; m[l++] = bl;
+    if (dtls) { int msn = tgt->ssl->lastMsn + 1; m[l++] = msn >> 8; m[l++] = msn; m[l++] = 0; m[l++] = 0; m[l++] = 0; m[l++] = 0; m[l++] = bl >> 8; m[l++] = bl; }
+    memcpy(m + l, b, bl); l += bl;
+    unsigned long long seq = dtls ? next_rsn(tgt) + seqadd : 0;
+    int n = mk_header(out, dtls, 22, vmaj, vmin, 0, seq, l); memcpy(out + n, m, l); return n + l;
+}
+
 static int build_injection(mx_conn *k, mx_ep *tgt, const inj_t *in, unsigned char *out)
 {
     int dtls = k->dtls, n = 0; unsigned char body[17000];
@@ -103,6 +199,13 @@ static int build_injection(mx_conn *k, mx_ep *tgt, const inj_t *in, unsigned cha
         int tot = 0;
         for (int i = 0; i < in->len; i++) { char msg[40]; int ml = snprintf(msg, sizeof msg, "EVIL|peer-early-%02d", i); int l = mx_seal_as(peer, 23, (unsigned char *) msg, ml, out + tot); if (l <= 0) return 0; tot += l; }
         return tot; }
+    case INJ_HSPLAIN: {
+        vf_rng r; vf_rng_init(&r, vf_seed, in->len * 7919 + M.cut * 31 + tgt->role);
+        if (in->len == HS_CCS_FINISHED) {
+            n = mk_header(out, dtls, 20, in->vmaj, in->vmin, 0, dtls ? next_rsn(tgt) : 0, 1); out[n++] = 1;
+            return n + forge_hs_record(20, k, tgt, in->vmaj, in->vmin, 1, &r, out + n);
+        }
+        return forge_hs_record(in->len, k, tgt, in->vmaj, in->vmin, 0, &r, out); }
     case INJ_HSKEY: case INJ_HSKEY_OUTER22: {
         /* key-holding peer: a record sealed under the *handshake* traffic key of the honest peer with inner type 23 */
         if (tgt->ver != MX_TLS13) return 0;
@@ -117,6 +220,18 @@ static int build_injection(mx_conn *k, mx_ep *tgt, const inj_t *in, unsigned cha
     return 0;
 }
 
+/* one application encode attempt on an endpoint whose handshake is not complete; returns the library's answer */
+static int encode_probe(mx_ep *tgt, const char *what, const char *when)
+{
+    unsigned char p[64]; mx_payload(p, 40, 0x0c01, tgt->role, 99);
+    int rc = mx_send(tgt, p, 40);
+    int earlyok = tgt->role == MX_CLIENT && tgt->ver == MX_TLS13 && tgt->ssl->sec.tls13DidEncodePsk && matrixSslGetMaxEarlyData(tgt->ssl) > 0;
+    /* a TLS 1.3 server that accepted early data may send 0.5-RTT data: designed behaviour, not asserted either way */
+    if (tgt->role == MX_SERVER && tgt->ver == MX_TLS13 && tgt->ssl->tls13ServerEarlyDataEnabled) earlyok = 1;
+    if (rc >= 0 && !earlyok) report(what, tgt, "matrixSslEncodeToOutdata returned %d %s", rc, when);
+    return rc;
+}
+
 typedef struct { mx_conn *k; int target; int cut; const inj_t *inj; } child_arg;
 static void child_run(void *a_)
 {
@@ -127,22 +242,35 @@ static void child_run(void *a_)
     if (vf_verbose) fprintf(stderr, "  child: now=%ld srv gotlen=%zu nApp=%d early status=%d enabled=%d sent0=%d sent1=%d cli gotlen=%zu\n", mx_now, k->s.gotlen, k->s.nApp, k->s.ssl->tls13EarlyDataStatus, k->s.ssl->tls13ServerEarlyDataEnabled, M.sentlen[0], M.sentlen[1], k->c.gotlen);
     if (a->inj->kind == INJ_ENCODE) {
         if (!matrixSslHandshakeIsComplete(tgt->ssl)) {
-            unsigned char p[64]; mx_payload(p, 40, 0x0c01, tgt->role, 99);
-            int rc = mx_send(tgt, p, 40);
-            int earlyok = tgt->role == MX_CLIENT && tgt->ver == MX_TLS13 && tgt->ssl->sec.tls13DidEncodePsk && matrixSslGetMaxEarlyData(tgt->ssl) > 0;
-            /* a TLS 1.3 server that accepted early data may send 0.5-RTT data: designed behaviour, not asserted either way */
-            if (tgt->role == MX_SERVER && tgt->ver == MX_TLS13 && tgt->ssl->tls13ServerEarlyDataEnabled) earlyok = 1;
             vf_stat("encode_attempts_before_complete", 1);
-            if (rc >= 0 && !earlyok) report("encode-before-complete", tgt, "matrixSslEncodeToOutdata returned %d before handshake completion", rc);
-            if (rc >= 0) return;   /* state now carries the illegal record; nothing more to learn */
+            if (encode_probe(tgt, "encode-before-complete", "before handshake completion") >= 0) return;   /* state now carries the illegal record; nothing more to learn */
         }
     } else if (a->inj->kind != INJ_NONE) {
         int n = build_injection(k, tgt, a->inj, rec);
         if (n <= 0) { vf_stat("injection_not_applicable", 1); return; }
+        int keyless = a->inj->kind == INJ_PLAIN || a->inj->kind == INJ_RANDOM || a->inj->kind == INJ_FOREIGN || a->inj->kind == INJ_REFLECT || a->inj->kind == INJ_HSPLAIN;
+        int wasComplete = matrixSslHandshakeIsComplete(tgt->ssl) || tgt->hsDone, wasDead = tgt->dead;
         M.injected = 1; vf_stat("injections_delivered", 1);
         vf_distinct("%s|%s|ca%d|r%d|%s|cut%d|st%d|%s|%d.%d|%d", verclass(M.scn->cfg.ver), M.scn->name, M.scn->cfg.clientAuth, M.scn->resumed, a->target ? "S" : "C", a->cut, tgt->ssl->hsState, injname[a->inj->kind], a->inj->vmaj, a->inj->vmin, a->inj->len);
         if (k->dtls) { int off = 0; mx_rec r; while (off < n && mx_rec_at(rec, n, off, 1, &r)) { if (!tgt->dead) mx_feed(tgt, rec + off, r.hdr + r.len); off += r.hdr + r.len; } }
         else if (!tgt->dead) mx_feed(tgt, rec, n);
+        if (keyless && !wasComplete && !wasDead) {
+            /* (d) nothing a peer without keys sends turns an incomplete handshake into a complete one: probe both directions of the API
+               right after the record was consumed and again after the target's answer (alert, flight) was handed to the transport */
+            int bad = 0;
+            for (int pass = 0; pass < 2 && !bad; pass++) {
+                if (matrixSslHandshakeIsComplete(tgt->ssl) || tgt->hsDone) {
+                    report("complete-after-keyless-record", tgt, "handshake reported complete (IsComplete=%d, HANDSHAKE_COMPLETE seen=%d, last rc=%d) after a forged record; it was not before",
+                           matrixSslHandshakeIsComplete(tgt->ssl), tgt->hsDone, tgt->lastrc);
+                    bad = 1;
+                }
+                if (pass == 0) mx_conn_collect(k);
+            }
+            vf_stat("keyless_completion_probes", 1);
+            if (!tgt->dead && !tgt->closeReq && !(tgt->ssl->flags & SSL_FLAGS_ERROR)) vf_stat("keyless_target_survived_injection", 1);
+            vf_stat("keyless_encode_probes", 1);
+            if (encode_probe(tgt, "encode-after-keyless-record", "after a forged record on an incomplete handshake") >= 0 || bad) return;
+        }
     }
     /* let the honest handshake continue, then honest traffic both ways */
     mx_conn_run(k, NULL, NULL, 300);
@@ -160,7 +288,7 @@ static void child_run(void *a_)
     }
 }
 
-static inj_t catalogue[64]; static int ncat;
+static inj_t catalogue[96]; static int ncat;
 static void build_catalogue(int ver)
 {
     ncat = 0; int dtls = MX_IS_DTLS(ver);
@@ -180,6 +308,11 @@ static void build_catalogue(int ver)
     catalogue[ncat++] = (inj_t) { INJ_REFLECT };
     catalogue[ncat++] = (inj_t) { INJ_AUTH_APPDATA, 0, 0, 1 }; catalogue[ncat++] = (inj_t) { INJ_AUTH_APPDATA, 0, 0, 9 };
     if (ver == MX_TLS13) { catalogue[ncat++] = (inj_t) { INJ_HSKEY }; catalogue[ncat++] = (inj_t) { INJ_HSKEY_OUTER22 }; }
+    for (int i = 0; i < NHSFORGE; i++) {
+        if (ver == MX_TLS13 ? !hsforge[i].v13 : !hsforge[i].v12) continue;
+        if (hsforge[i].dtlsonly && !dtls) continue;
+        catalogue[ncat++] = (inj_t) { INJ_HSPLAIN, dtls ? 254 : 3, ver == MX_TLS11 ? 2 : ver == MX_DTLS10 ? 255 : ver == MX_DTLS12 ? 253 : 3, hsforge[i].type, 0 };
+    }
 }
 
 static long g_case_idx;
@@ -194,7 +327,8 @@ static void at_cut(mx_walk *w, mx_conn *k, int cut)
         M.scn = w->scn; M.target = w->target; M.inj = &catalogue[j]; M.cut = cut; M.injected = 0;
         for (int d = 0; d < 2; d++) { memcpy(M.sent[d], w->sent[d], w->sentlen[d]); M.sentlen[d] = w->sentlen[d]; }
         char sd[128]; mx_scn_desc(sd, sizeof sd, w->scn, w->target);
-        snprintf(M.desc, sizeof M.desc, "scn=%s cut=%d inj=%s:%d.%d:len%d:ep%d", sd, cut, injname[catalogue[j].kind], catalogue[j].vmaj, catalogue[j].vmin, catalogue[j].len, catalogue[j].epoch);
+        if (catalogue[j].kind == INJ_HSPLAIN) snprintf(M.desc, sizeof M.desc, "scn=%s cut=%d inj=%s:%s:%d.%d", sd, cut, injname[catalogue[j].kind], hsforge_name(catalogue[j].len), catalogue[j].vmaj, catalogue[j].vmin);
+        else snprintf(M.desc, sizeof M.desc, "scn=%s cut=%d inj=%s:%d.%d:len%d:ep%d", sd, cut, injname[catalogue[j].kind], catalogue[j].vmaj, catalogue[j].vmin, catalogue[j].len, catalogue[j].epoch);
         if (vf_case && strcmp(vf_case, M.desc)) continue;
         if (j == 1 && cut < 3) vf_sample("%s", M.desc);
         vf_fork_case(child_run, &a, "c01", M.desc, 60);
@@ -213,14 +347,142 @@ static void run_scenario(const scn_t *s, int target)
     }
 }
 
+/* ==== keyless peers against RFC 4279 pre-shared-key suites ====
+ * The victim holds a PSK table; the peer is a MatrixSSL endpoint that holds NONE of the table's keys: it presents an identity the victim
+ * does not know (1, 15, 16, 128 octets), a near miss of a known one (prefix, one octet longer) or a known one, and derives its keys from
+ * the empty key (length forced to 0 in the attacker's own key store - matrixSslLoadPsk refuses it), an all-zero key or a wrong key.
+ * Whatever the attacker does, the victim must never report completion, never deliver a byte and never accept application data for
+ * sending.  Controls: the right identity with the right key completes and delivers in every (version, suite, EMS) cell. */
+static const unsigned char pskv_id2[5] = { 'd', 'e', 'v', '-', '7' }, pskv_key2[32] = { 0x91, 0x22, 0x5b, 0x07, 0xe4, 0x18, 0x6d, 0xaa, 0x3c, 0x50, 0x0f, 0xb3, 0x77, 0xc1, 0x2e, 0x88, 0x19, 0xd4, 0x63, 0xfe, 0x05, 0x9a, 0x4b, 0xe0, 0x36, 0x7d, 0xc8, 0x21, 0x5f, 0xa6, 0x12, 0xbd };
+static unsigned char pskv_id3[128], pskv_key3[64];
+enum { PID_UNK1 = 0, PID_UNK15, PID_UNK16, PID_UNK128, PID_PREFIX15, PID_LONGER17, PID_KNOWN16, PID_KNOWN128, PID_N };
+static const char *pidname[] = { "unknown-1", "unknown-15", "unknown-16", "unknown-128", "known-prefix-15", "known-plus-one-17", "known-16", "known-128" };
+enum { PKEY_EMPTY = 0, PKEY_ZERO1, PKEY_ZERO16, PKEY_ZERO64, PKEY_WRONG, PKEY_RANDOM, PKEY_RIGHT, PKEY_N };
+static const char *pkeyname[] = { "empty", "zero-1", "zero-16", "zero-64", "wrong-bit", "random-16", "right" };
+typedef struct { int ver; uint16_t suite; int ems; int victim; int id, key; char desc[160]; } pskcase;
+static sslKeys_t *pskv_table(void)
+{
+    sslKeys_t *k = NULL; unsigned char kb[SSL_PSK_MAX_KEY_SIZE] = { 0 }, ib[SSL_PSK_MAX_ID_SIZE] = { 0 };
+    if (matrixSslNewKeys(&k, NULL) < 0) return NULL;
+    memcpy(kb, pskv_key2, 32); memcpy(ib, pskv_id2, 5); if (matrixSslLoadPsk(k, kb, 32, ib, 5) < 0) return NULL;
+    memcpy(kb, mx_psk_key, 16); memcpy(ib, mx_psk_id, 16); if (matrixSslLoadPsk(k, kb, 16, ib, 16) < 0) return NULL;
+    if (matrixSslLoadPsk(k, pskv_key3, 64, pskv_id3, 128) < 0) return NULL;
+    return k;
+}
+static void psk_on_app(mx_ep *e, const unsigned char *pt, uint32 len) { (void) e; (void) pt; (void) len; vf_stat("appdata_deliveries", 1); }
+static void psk_child(void *a_)
+{
+    pskcase *c = a_; unsigned char id[SSL_PSK_MAX_ID_SIZE] = { 0 }, key[SSL_PSK_MAX_KEY_SIZE] = { 0 }; int idl = 0, kl = 0;
+    const unsigned char *kid = mx_psk_id, *kkey = mx_psk_key; int kidl = 16, kkl = 16;   /* the table entry the attacker aims at */
+    vf_rng r; vf_rng_init(&r, vf_seed, c->id * 131 + c->key * 17 + c->suite);
+    vf_stat("cases", 1); vf_stat("psk_keyless_cases", 1);
+    if (c->id == PID_KNOWN128) { kid = pskv_id3; kkey = pskv_key3; kidl = 128; kkl = 64; }
+    switch (c->id) {
+    case PID_UNK1: idl = 1; id[0] = 'x'; break;
+    case PID_UNK15: idl = 15; for (int i = 0; i < idl; i++) id[i] = 'a' + vf_below(&r, 26); break;
+    case PID_UNK16: idl = 16; for (int i = 0; i < idl; i++) id[i] = 'a' + vf_below(&r, 26); break;
+    case PID_UNK128: idl = 128; for (int i = 0; i < idl; i++) id[i] = 'a' + vf_below(&r, 26); break;
+    case PID_PREFIX15: idl = 15; memcpy(id, mx_psk_id, 15); break;
+    case PID_LONGER17: idl = 17; memcpy(id, mx_psk_id, 16); id[16] = 0; break;
+    default: idl = kidl; memcpy(id, kid, kidl); break;
+    }
+    switch (c->key) {
+    case PKEY_EMPTY: kl = 1; key[0] = 0x5a; break;                 /* length forced to 0 below */
+    case PKEY_ZERO1: kl = 1; break;
+    case PKEY_ZERO16: kl = 16; break;
+    case PKEY_ZERO64: kl = 64; break;
+    case PKEY_WRONG: kl = kkl; memcpy(key, kkey, kkl); key[5] ^= 0x40; break;
+    case PKEY_RANDOM: kl = 16; vf_fill(&r, key, 16); break;
+    case PKEY_RIGHT: kl = kkl; memcpy(key, kkey, kkl); break;
+    }
+    int control = c->key == PKEY_RIGHT && (c->id == PID_KNOWN16 || c->id == PID_KNOWN128);
+    sslKeys_t *akeys = NULL, *vkeys = NULL;
+    if (matrixSslNewKeys(&akeys, NULL) < 0) { vf_incon("psk: newkeys"); return; }
+    if (c->victim == MX_SERVER) {
+        /* attacker = client presenting (id, key); victim = server with the three-entry table */
+        if (matrixSslLoadPsk(akeys, key, kl, id, idl) < 0) { vf_incon("psk: attacker loadpsk %s", c->desc); return; }
+        vkeys = pskv_table();
+    } else {
+        /* attacker = server that lists the victim client's identity with (key); victim = client holding the real key of that identity */
+        unsigned char kb[SSL_PSK_MAX_KEY_SIZE] = { 0 }, ib[SSL_PSK_MAX_ID_SIZE] = { 0 }; memcpy(kb, kkey, kkl); memcpy(ib, kid, kidl);
+        if (matrixSslLoadPsk(akeys, key, kl, ib, kidl) < 0) { vf_incon("psk: attacker loadpsk %s", c->desc); return; }
+        if (matrixSslNewKeys(&vkeys, NULL) < 0) { vf_incon("psk: newkeys"); return; }
+        if (matrixSslLoadPsk(vkeys, kb, kkl, ib, kidl) < 0) { vf_incon("psk: victim loadpsk"); return; }
+    }
+    if (!vkeys) { vf_incon("psk: victim table"); return; }
+    if (c->key == PKEY_EMPTY) akeys->pskKeys->pskLen = 0;
+    mx_cfg cfg; memset(&cfg, 0, sizeof cfg); cfg.ver = c->ver; cfg.suite = c->suite; cfg.ems = c->ems ? 0 : -1;
+    cfg.skeys = c->victim == MX_SERVER ? vkeys : akeys; cfg.ckeys = c->victim == MX_SERVER ? akeys : vkeys;
+    mx_conn k; if (mx_conn_open(&k, &cfg, NULL) != 0) { vf_incon("psk: open %s", c->desc); return; }
+    mx_ep *vic = c->victim == MX_SERVER ? &k.s : &k.c, *att = c->victim == MX_SERVER ? &k.c : &k.s;
+    k.c.on_app = psk_on_app; k.s.on_app = psk_on_app;
+    mx_conn_run(&k, NULL, NULL, 100);
+    int attComplete = matrixSslHandshakeIsComplete(att->ssl) && !att->dead;
+    /* the attacker's "application data"; then whatever the victim is willing to say */
+    unsigned char msg[64]; int ml = snprintf((char *) msg, sizeof msg, "EVIL|keyless-psk-peer|%s", pkeyname[c->key]);
+    if (mx_send(att, msg, ml) > 0) mx_conn_run(&k, NULL, NULL, 50);
+    unsigned char p[64]; mx_payload(p, 40, 0x0c01, vic->role, 98);
+    int enc = mx_send(vic, p, 40);
+    if (enc > 0) mx_conn_run(&k, NULL, NULL, 50);
+    int vicComplete = matrixSslHandshakeIsComplete(vic->ssl) || vic->hsDone;
+    const char *vn = mx_vername[c->ver], *rn = vic->role == MX_SERVER ? "server" : "client";
+    if (vf_verbose) fprintf(stderr, "  psk %s: victim complete=%d hsDone=%d nApp=%d enc=%d dead=%d alertOut? flags=0x%x hsState=%d | attacker complete=%d dead=%d alertIn=%d/%d\n", c->desc, matrixSslHandshakeIsComplete(vic->ssl), vic->hsDone, vic->nApp, enc, vic->dead, vic->ssl->flags, vic->ssl->hsState, attComplete, att->dead, att->alertLevel, att->alertDesc);
+    if (control) {
+        if (!vicComplete || !attComplete || vic->nApp != 1 || att->nApp != 1 || vic->gotlen != (size_t) ml || memcmp(vic->got, msg, ml))
+            vf_violation("c01:harness:psk-control-failed", c->desc, "the peer with the right identity and key: victim complete=%d peer complete=%d deliveries=%d/%d", vicComplete, attComplete, vic->nApp, att->nApp);
+        else vf_stat("psk_controls_ok", 1);
+    } else {
+        char key_[160];
+        if (vicComplete) { snprintf(key_, sizeof key_, "c01:complete-with-keyless-psk-peer:%s:%s", vn, rn); vf_violation(key_, c->desc, "the victim reports a completed handshake (IsComplete=%d, HANDSHAKE_COMPLETE seen=%d) with a peer that presented identity class %s and holds key class %s; peer complete=%d", matrixSslHandshakeIsComplete(vic->ssl), vic->hsDone, pidname[c->id], pkeyname[c->key], attComplete); }
+        if (vic->nApp) { snprintf(key_, sizeof key_, "c01:appdata-from-keyless-psk-peer:%s:%s", vn, rn); vf_violation(key_, c->desc, "%d application record(s) (%zu bytes, first=%.24s) delivered from a peer without any configured key", vic->nApp, vic->gotlen, vic->gotlen ? (const char *) vic->got : ""); }
+        if (enc >= 0) { snprintf(key_, sizeof key_, "c01:encode-to-keyless-psk-peer:%s:%s", vn, rn); vf_violation(key_, c->desc, "matrixSslEncodeToOutdata returned %d on a victim whose peer holds no configured key", enc); }
+        if (att->nApp) { snprintf(key_, sizeof key_, "c01:appdata-to-keyless-psk-peer:%s:%s", vn, rn); vf_violation(key_, c->desc, "the keyless peer decrypted %d application record(s) of the victim", att->nApp); }
+        /* non-trivial = the victim got as far as evaluating the peer's key material: it parsed the ClientKeyExchange (server) / sent its own
+           Finished (client), i.e. the refusal came from the key check and not from an earlier framing problem */
+        int reached = vic->role == MX_SERVER ? (k.delivered[0] >= 2) : (k.delivered[1] >= 2);
+        if (reached) { vf_stat("psk_keyless_reached_key_check", 1); vf_distinct("psk|%s|%04x|ems%d|%s|%s|%s", vn, c->suite, c->ems, rn, pidname[c->id], pkeyname[c->key]); }
+    }
+    mx_conn_close(&k);
+    matrixSslDeleteKeys(akeys); matrixSslDeleteKeys(vkeys);
+}
+static void psk_keyless(void)
+{
+    static const uint16_t psuites[] = { 0x008c, 0x008d, 0x00ae, 0x00af };
+    static const int vers[] = { MX_TLS11, MX_TLS12, MX_DTLS10, MX_DTLS12 };
+    int full = vf_thorough || vf_flag("--psk-full") || vf_case != NULL;
+    for (int i = 0; i < 128; i++) pskv_id3[i] = (unsigned char) ('A' + i % 26);
+    for (int i = 0; i < 64; i++) pskv_key3[i] = (unsigned char) (i * 37 + 11);
+    for (int vi = 0; vi < 4; vi++) for (int si = 0; si < 4; si++) for (int ems = 0; ems < 2; ems++) for (int victim = 1; victim >= 0; victim--)
+        for (int id = 0; id < PID_N; id++) for (int key = 0; key < PKEY_N; key++) {
+            const mx_suite_t *su = mx_suite_by_id(psuites[si]);
+            if (!su || !mx_suite_ok_for(su, vers[vi])) continue;
+            if (victim == MX_CLIENT && id < PID_KNOWN16) continue;          /* the client victim names its own identity */
+            /* the sanitizer build's quick tier runs a sub-grid (EMS off only with the first suite of a version; no 1- / 64-octet zero keys);
+               the full grid runs in its thorough tier and, in both tiers, in the stage built with the repository's default flags */
+            if (!full && ((ems == 0 && si != (vers[vi] == MX_TLS12 || vers[vi] == MX_DTLS12 ? 2 : 0)) || key == PKEY_ZERO1 || key == PKEY_ZERO64)) continue;
+            if (key == PKEY_RIGHT && id < PID_KNOWN16) { if (victim == MX_SERVER && id != PID_PREFIX15 && id != PID_LONGER17) continue; }   /* right key bytes under a near-miss identity stay in; under unknown identities they equal "random" */
+            long idx = g_case_idx++;
+            if (!vf_mine(idx)) continue;
+            pskcase c = { vers[vi], psuites[si], ems, victim, id, key };
+            snprintf(c.desc, sizeof c.desc, "psk ver=%s suite=%04x ems=%d victim=%s id=%s key=%s", mx_vername[vers[vi]], psuites[si], ems, victim ? "server" : "client", pidname[id], pkeyname[key]);
+            if (vf_case && strcmp(vf_case, c.desc)) continue;
+            if (id == PID_UNK16 && key == PKEY_EMPTY && ems == 1 && victim == MX_SERVER && si == 0) vf_sample("%s", c.desc);
+            mx_entropy_seed(vf_seed + 7000 + idx);
+            vf_fork_case(psk_child, &c, "c01", c.desc, 60);
+        }
+}
+
 int main(int argc, char **argv)
 {
     vf_init(argc, argv); mx_global_init(); mx_keys_load();
     mx_scn_build(vf_thorough);
-    for (int i = 0; i < mx_nscn; i++) for (int target = 0; target < 2; target++) {
+    int pskonly = !strcmp(vf_arg("--part", "all"), "psk");
+    if (vf_case) { if (!strncmp(vf_case, "psk ", 4)) pskonly = 1; else if (pskonly) return 0; }
+    for (int i = 0; i < mx_nscn && !pskonly; i++) for (int target = 0; target < 2; target++) {
         mx_entropy_seed(vf_seed + i * 2 + target);
         run_scenario(&mx_scns[i], target);
     }
+    if (!vf_case || pskonly) psk_keyless();
     mx_keys_free(); matrixSslClose();
     vf_flush();
     return 0;
